@@ -613,6 +613,24 @@ def kill_workers_func(e):
     return out[0]
 
 
+def kill_tree_roles(e):
+    """(psutil implementation, fallback implementation, recursive pgrep kill) of the public kill_process_tree, by role:
+    its two callees (the one using psutil / the other), and the self-recursive helper reachable from the fallback."""
+    kt = e.prog.func(KILL_TREE)
+    cal = set()
+    for n in func_nodes(kt):
+        if isinstance(n, ast.Call):
+            cal |= {q for q in e.callees_of(n) if q.startswith("loky.backend.utils:")}
+    ps = [q for q in cal if any(isinstance(x, ast.Name) and x.id == "psutil" for x in func_nodes(e.prog.funcs[q]))]
+    fb = [q for q in cal if q not in ps]
+    if len(ps) != 1 or len(fb) != 1:
+        raise AnalysisError(f"anchor vanished: the two implementations behind kill_process_tree ({sorted(cal)})")
+    rec = [q for q in e.reach([fb[0]]) if q in e.prog.funcs and any(isinstance(x, ast.Call) and q in e.callees_of(x) for x in func_nodes(e.prog.funcs[q]))]
+    if len(rec) != 1:
+        raise AnalysisError(f"anchor vanished: the recursive kill helper ({sorted(rec)})")
+    return e.prog.funcs[ps[0]], e.prog.funcs[fb[0]], e.prog.funcs[rec[0]]
+
+
 def r_kill_tree(e, R):
     a = e.anchors
     kill = kill_pred(e)
@@ -648,7 +666,7 @@ def r_kill_tree(e, R):
             R.fail("R-KILL-TREE", f.short, norm(n), "kills only the worker process, not its descendants", e.loc(f, n))
     # psutil variant
     U = "loky.backend.utils:"
-    fp = e.prog.func(U + "_kill_process_tree_with_psutil")
+    fp, fw_role, fr_role = kill_tree_roles(e)
     gp = e.cfg(fp)
     enum = [n for n in gp.nodes for c in calls_in(n) if isinstance(c.func, ast.Attribute) and c.func.attr == "children"]
     pkills = [n for n in gp.nodes for c in calls_in(n) if isinstance(c.func, ast.Attribute) and c.func.attr == "kill"]
@@ -671,11 +689,15 @@ def r_kill_tree(e, R):
     R.check(esc is None, "R-KILL-TREE", f"{fp.short}: the killed worker is joined (reaped) on every path", fp.short, "process.join()",
             "a killed worker is not reaped", e.loc(fp, fp.node))
     # pgrep variant
-    fr = e.prog.func(U + "_posix_recursive_kill")
+    fr = fr_role
     gr = e.cfg(fr)
     enum = [n for n in gr.nodes for c in calls_in(n) if isinstance(c.func, ast.Attribute) and c.func.attr == "check_output"]
     killers = {q for n in func_nodes(fr) if isinstance(n, ast.Call) for q in e.callees_of(n)
                if q != fr.qualname and any(isinstance(x, ast.Call) and norm(x.func) == "os.kill" for x in func_nodes(e.prog.funcs[q]))}
+    if not killers:
+        # no callee sends a signal any more: fall back on the helper called with the function's own pid parameter
+        killers = {q for n in func_nodes(fr) if isinstance(n, ast.Call) and n.args and isinstance(n.args[0], ast.Name) and n.args[0].id == fr.params[0]
+                   for q in e.callees_of(n) if q != fr.qualname}
     if len(killers) != 1:
         raise AnalysisError(f"{fr.short}: the helper sending the kill signal is not unique: {sorted(killers)}")
     KILLQ = killers.pop()
@@ -687,7 +709,7 @@ def r_kill_tree(e, R):
             "pgrep / recursion before _kill(pid)",
             "the process is killed before its children were listed and killed: once the parent is dead its children are "
             "re-parented and invisible to pgrep -P", e.loc(fr, fr.node))
-    fw = e.prog.func(U + "_kill_process_tree_without_psutil")
+    fw = fw_role
     gw = e.cfg(fw)
     joins = [n for n in gw.nodes for c in calls_in(n) if isinstance(c.func, ast.Attribute) and c.func.attr == "join"]
     esc = gw.escape_path(gw.entry, lambda n: n in joins, use_exc=False)
